@@ -18,6 +18,10 @@ class Hang(Exception):
     pass
 
 
+class StepLimit(Exception):
+    """The run needed more scheduler decisions than the harness allows: inconclusive, never a violation."""
+
+
 class Sched:
     def __init__(self, schedule=None, max_steps=4000):
         self.loop = asyncio.new_event_loop()
@@ -30,6 +34,7 @@ class Sched:
         self.branching = []      # number of enabled actions at each decision (for enumeration)
         self.taken = []          # index taken at each decision
         self.hang = False
+        self.step_limit = False
         self.main_task = None
         self.max_steps = max_steps
         self.steps = 0
@@ -81,8 +86,12 @@ class Sched:
         self.steps += 1
         enabled = [("gate", g) for g in self.pending_gates()]
         enabled += [("action", name) for name, (en, _do) in self.actions.items() if en()]
-        if not enabled or self.steps > self.max_steps:
+        if not enabled:
             self.hang = True
+            self.loop.stop()
+            return
+        if self.steps > self.max_steps:
+            self.step_limit = True
             self.loop.stop()
             return
         kind, x = enabled[self._next(len(enabled))]
@@ -100,6 +109,8 @@ class Sched:
         self.main_task = self.loop.create_task(main_coro)
         self.loop.call_soon(self._tick)
         self.loop.run_forever()
+        if self.step_limit:
+            raise StepLimit(f"more than {self.max_steps} scheduler decisions")
         if self.hang:
             raise Hang(f"hang after {self.trace[-6:]} with gates {[g[0] for g in self.pending_gates()]}")
         return self.main_task.result()
@@ -112,9 +123,9 @@ class Sched:
         self.loop.run_forever()
         return not self.hang
 
-    def drain(self, release_all=True):
+    def drain(self, release_all=True, rounds=200):
         """Let the outside world finish: release every pending gate, run to quiescence, repeat."""
-        for _ in range(200):
+        for _ in range(rounds):
             if release_all:
                 for g in self.pending_gates():
                     g[1].set_result(None)
